@@ -38,7 +38,7 @@ def run(ctx):
     args = ["-plans", pdir, "-out", ctx.path("calls.ndjson"), "-seed", ctx.seed,
             "-enum", ctx.q(3, 4), "-enumfull", ctx.q(2, 3), "-rand", ctx.q(400, 6000),
             "-maxlen", ctx.q(12, 24), "-long", ctx.q(14, 42), "-longlen", ctx.q(300, 1000),
-            "-rounds", ctx.q(60, 1500)]
+            "-rounds", ctx.q(60, 1500), "-widths", "256,65536"]
     # handles that already carry an error: before fix b8f299d Transact began a transaction for them and
     # returned the old error without finishing it (known_findings.json, fixed); exercised always
     args.append("-dberr")
@@ -92,6 +92,11 @@ def run(ctx):
              "one-step list, every kind of refusal (8) for begin / commit / rollback, nil functions as steps, "
              "steps that call Transact again on the handle they got, 14 (42) lists of up to 300 (1000) steps, "
              "60 (1500) rounds of 2..6 calls released together on one fresh pool (each one trace) "
+             "+ lists of 255/256/257 and 65535/65536/65537 steps (run-length encoded events, padded cfg), the "
+             "same function value standing at consecutive positions, no handle at all (nil / never opened "
+             "gorm.DB), 11 kinds of panic value and errors of odd dynamic type (typed nil, uncomparable), "
+             "queries as statements, rounds on pools of 1-2 connections, a caller whose context ends while "
+             "it is parked in the pool waiting to begin "
              "+ seeded random lists up to 12 (24) steps; a failing step returns one of ~130 kinds of error "
              "(own, driver statement error, wrapped, nested Transact's, MySQL 1062/1105 duplicate, gRPC status, and "
              "every error value database/sql, database/sql/driver, gorm, go-sql-driver/mysql, context, io, net / "
